@@ -44,8 +44,12 @@ def apply(sources, diff_text):
     for path, hunks in parse(diff_text).items():
         text = sources.get(path)
         if text is None:
-            if all(not h[0] for h in hunks):
-                out[path] = "\n".join(l for h in hunks for l in h[1]) + "\n"
+            # a file the diff creates: nothing but added lines (the blank produced by the final split aside)
+            if all(not [l for l in h[0] if l != ""] for h in hunks):
+                new_lines = [l for h in hunks for l in h[1]]
+                while new_lines and new_lines[-1] == "":
+                    new_lines.pop()
+                out[path] = "\n".join(new_lines) + "\n"
                 continue
             return None
         lines = text.split("\n")
